@@ -429,35 +429,35 @@ class SymSet:
 
     def __init__(self, items, frozen):
         self.frozen = frozen
-        self.items = []
+        self.elems = []
         ctx = Ctx.cur
         for v in items:
             dup = False
-            for w in self.items:
+            for w in self.elems:
                 if ctx.decide_b(sym_value_eq(v, w)):
                     dup = True
                     break
             if not dup:
-                self.items.append(v)
+                self.elems.append(v)
 
     def __iter__(self):
-        return iter(self.items)
+        return iter(self.elems)
 
     def __len__(self):
-        return len(self.items)
+        return len(self.elems)
 
     def __contains__(self, v):
-        return Ctx.cur.decide_b(zor([sym_value_eq(v, w) for w in self.items]))
+        return Ctx.cur.decide_b(zor([sym_value_eq(v, w) for w in self.elems]))
 
     def __hash__(self):
         raise Unsupported("hash of a set with symbolic members")
 
     def __concretize__(self, m):
-        vals = [concretize(v, m) for v in self.items]
+        vals = [concretize(v, m) for v in self.elems]
         return frozenset(vals) if self.frozen else set(vals)
 
     def __repr__(self):
-        return "SymSet(%r)" % (self.items,)
+        return "SymSet(%r)" % (self.elems,)
 
 
 def sym_frozenset(it=()):
